@@ -214,3 +214,61 @@ func VP_C07_StatusStaged() {
 	}
 	zzvp.Done()
 }
+
+// VP_C07_KindChange: a tracked file that became a directory (or a tracked directory that became a file) and is staged
+// again: the staging area never tracks one name both as a file and as a directory, status reports the replacement as
+// one deletion and one new file, the commit succeeds and leaves nothing staged.
+func VP_C07_KindChange() {
+	vpInitRepo()
+	w := zzvp.Root()
+	maxc := zzvp.Param("complen", 2)
+	top := vpPath("k", 1, maxc)  // one component
+	leaf := vpPath("l", 1, maxc) // one component
+	other := vpPath("o", zzvp.Param("depth", 2), maxc)
+	zzvp.Assume(other != top && !vpHasDirPrefix(other, top) && !vpHasDirPrefix(top, other))
+	zzvp.WriteFile(w+"/"+other, []byte("O"))
+	vpOK(zzvp.Run("add", other))
+	var oldPath, newPath string
+	fileToDir := zzvp.Choose(2) == 0
+	if fileToDir {
+		oldPath, newPath = top, top+"/"+leaf
+	} else {
+		oldPath, newPath = top+"/"+leaf, top
+	}
+	zzvp.WriteFile(w+"/"+oldPath, []byte("1"))
+	vpOK(zzvp.Run("add", oldPath))
+	vpOK(zzvp.Run("commit", "-m", "base"))
+	zzvp.RemoveAll(w + "/" + top)
+	zzvp.WriteFile(w+"/"+newPath, []byte("2"))
+	var r zzvp.Result
+	switch zzvp.Choose(3) {
+	case 0:
+		r = zzvp.Run("add", top)
+	case 1:
+		r = zzvp.Run("add", newPath)
+	default:
+		r = zzvp.Run("add", ".")
+	}
+	zzvp.Assert(r.Exit == 0, "staging the replacement succeeds")
+	idx, ok := vpReadIndex()
+	zzvp.Assert(ok, "the staging area decodes")
+	conflict := false
+	for _, a := range idx {
+		for _, b := range idx {
+			if vpHasDirPrefix(a.path, b.path) {
+				conflict = true
+			}
+		}
+	}
+	zzvp.Assert(!conflict, "no name is tracked both as a file and as a directory")
+	id, found := vpFindPair(idx, newPath)
+	zzvp.Assert(found && id == string(vpBlobID([]byte("2"))), "the replacement is staged with its current bytes")
+	st := vpParseStatus(zzvp.Run("status").Out)
+	zzvp.Assert(vpSameSet(st.staged, []string{"deleted:     " + oldPath, "new file:    " + newPath}), "'Changes to be committed' lists the replaced path as deleted and the replacement as new, nothing else")
+	c := zzvp.Run("commit", "-m", "swap")
+	zzvp.Assert(c.Exit == 0, "a staged difference makes commit succeed")
+	st = vpParseStatus(zzvp.Run("status").Out)
+	zzvp.Assert(len(st.staged) == 0, "immediately after a successful commit nothing is staged")
+	zzvp.Assert(vpFsck() == "", "the repository is connected afterwards")
+	zzvp.Done()
+}
